@@ -6,26 +6,26 @@ props = [json.loads(l) for l in open(os.path.join(V, 'properties.jsonl'))]
 TECH = "SMT-based symbolic execution of the real Go SSA (own engine gosym, z3 decides every branch and assertion within the stated bounds); counterexamples and sampled path witnesses replayed natively"
 TRUST = "trusted base: go/ssa construction, the gosym interpreter and its listed stubs, z3 4.8.12; bounds as listed in checks/%s.json and repeated in the evidence file; nothing is claimed outside them"
 claims = {
- "C14": ("fault_enumeration", "the real Transaction wrappers (SQLiteDB/PostgresDB/MySQLDB/ORM) and the three BulkInsert implementations over a model store driven through a modelled database/sql: failing Begin/Commit/Rollback, failing statement positions, callback error, panic position and context-cancellation position are solver variables / engine choices; oracle = all-or-nothing, transaction finished on every exit, panic re-raised, handle usable afterwards. Wrapper logic only: the database engine's own atomicity is not claimed", "section 4 C14"),
+ "C14": ("fault_enumeration", "the real Transaction wrappers (SQLiteDB/PostgresDB/MySQLDB/ORM) and the three BulkInsert implementations over a model store driven through a modelled database/sql: failing Begin/Commit/Rollback, failing statement positions, callback error, panic position and context-cancellation position are solver variables / engine choices; oracle = all-or-nothing, transaction finished on every exit, panic re-raised, handle usable afterwards; transient-looking callback errors, a callback run twice, and nested transactions over a per-transaction store. Wrapper logic only: the database engine's own atomicity is not claimed", "section 4 C14"),
  "C17": ("model_checking", "symbolic URL path / SendFile target bytes (full byte range) through the real StaticFileServer.ServeHTTP and ResponseHelper.SendFile, with path.Clean, filepath.Join and filepath.EvalSymlinks interpreted from their source over a model file system that implements Unix path resolution on symbolic bytes; every served body names the physical file it came from, which must be a regular file under the resolved root", "section 4 C17"),
  "C11": ("model_checking", "the real rateLimitMiddleware -> RateLimitMiddleware chain on a virtual clock: symbolic declared N, every window spelling, greedy arrivals on a time grid, against the property's bound N x (1+T/window); client identity (port, forwarding headers) with symbolic bytes", "section 4 C11"),
  "C12": ("model_checking", "symbolic method-name byte strings through every call form (CallMethod/HasMethod, obj.m(a), m(obj,a), nested paths, field access) against a probe provider whose off-list methods fail the check when invoked; argument vectors of every kind through the modelled reflect.Call with its documented panics", "section 4 C12"),
  "C13": ("model_checking", "symbolic identifier/operator/direction/join/column-type byte strings through the real sanitizers, QueryBuilder.Build and ORM statement builders; the produced SQL must equal the fixed template over identifiers that satisfy an independently written safe grammar, with values only in the bound-argument list. Text structure only: execution against a real database is not claimed", "section 4 C13"),
  "C15": ("translation_validation", "symbolic histories of JIT calls (compile, typed compile, executions, deoptimisation, invalidation with redefinition, clear, adaptive recompilation) under symbolic thresholds and clock; every bytecode handed out is executed on the VM with a symbolic input and compared with the current definition", "section 4 C15"),
- "C20": ("model_checking", "bounded symbolic execution of the real LRUCache code against a reference LRU: every feasible path of every operation history within the bounds is decided by z3; termination of Set is an unwinding obligation", "section 4 C20"),
+ "C20": ("model_checking", "bounded symbolic execution of the real LRUCache code against a reference LRU: every feasible path of every operation history (Set/Get/Delete/Clear, tagged entries and DeleteByTag, eviction callback) within the bounds is decided by z3, byte accounting compared with the bytes really held; termination of Set is an unwinding obligation; two goroutines on one cache under delay-bounded schedules with a happens-before monitor", "section 4 C20"),
  "C04": ("model_checking", "Go panics, oversized allocations and non-termination are implicit assertions of the symbolic executor: every interpreter and VM builtin on argument vectors of every kind with symbolic payloads, index assignment on every kind, looping/recursing programs against the (scaled) guards, and route outcomes through the real HTTP handlers with a recording writer", "section 4 C04"),
- "C05": ("model_checking", "Router.Match on symbolic route tables and symbolic request paths against the declarative most-specific-match rule; all table shapes/orders within the bounds", "section 4 C05"),
+ "C05": ("model_checking", "Router.Match on symbolic route tables and symbolic request paths against the declarative most-specific-match rule; all table shapes/orders within the bounds; programs wired through the real setupRoutes + createHandler in both modes (identical duplicate declarations, every Go map iteration order in compiled mode) and raw request paths", "section 4 C05"),
  "C02": ("translation_validation", "differential execution of the two engines (interpreter.ExecuteRoute vs compiler.CompileRoute+vm.Execute) on symbolic-leaf program templates: for every operator, operand kind and payload within the bounds z3 decides whether the outcomes can differ", "section 4 C02"),
  "C03": ("translation_validation", "-O1/-O2 bytecode against -O0 bytecode on the VM for pointer-form AST templates with symbolic literals and a free variable of every runtime kind: z3 decides whether any literal value / runtime value makes the optimised program's outcome differ", "section 4 C03"),
  "C06": ("model_checking", "the real routeMiddlewares chain (authMiddleware, apiKeyMiddleware, denyAll, BasicAuthMiddleware with lockout) on symbolic credential sources and headers against an independently written credential predicate; lockout histories on a virtual clock", "section 4 C06"),
- "C07": ("model_checking", "the real ExecuteRoute input binding (ApplyTypeDefaults, ValidateObjectAgainstTypeDef, CheckType), ProcessQueryParams and the return-type check on symbolic JSON-shaped values against a contract predicate written from the property statement", "section 4 C07"),
+ "C07": ("model_checking", "the real ExecuteRoute input binding (ApplyTypeDefaults, ValidateObjectAgainstTypeDef, CheckType), ProcessQueryParams and the return-type check on symbolic JSON-shaped values against a contract predicate written from the property statement; the compiled handler's input validation across a reload; self-recursive types; defaults across requests on one interpreter", "section 4 C07"),
  "C18": ("model_checking", "symbolic source bytes through the real CanonicalizeSource (idempotence for every byte string in the bounds) and through the real Lexer before and after formatting (token sequence preserved); program templates with a symbolic identifier / symbolic line-leading symbol through the real ExpandSource, CompactSource, ExpandedLexer, Lexer and Parser with structural tree comparison", "section 4 C18"),
- "C19": ("fault_enumeration", "the real ReloadManager.handleChanges over change batches with symbolic paths and symbolic compile / reload / state-restore outcomes, and the real hotReloadManager.startServer/reload (parseSource, setupRoutes, handlers) over edit sequences drawn from {valid version k, parse error, semantic error, empty, deleted} with http.Server / ServeMux / os.ReadFile modelled: after every step exactly one server listens and answers with the latest version that loaded", "section 4 C19"),
+ "C19": ("fault_enumeration", "the real ReloadManager.handleChanges over change batches with symbolic paths and symbolic compile / reload / state-restore outcomes, and the real hotReloadManager.startServer/reload (parseSource, setupRoutes, handlers) over edit sequences drawn from {valid version k, parse error, semantic error, empty, deleted} with http.Server / ServeMux / os.ReadFile modelled: after every step exactly one server listens and answers with the latest version that loaded; two overlapping reload() calls under delay-bounded schedules; the polling FileWatcher over edit histories on a model file system (size, mtime from the virtual clock; content digest taken as collision free)", "section 4 C19"),
  "C09": ("model_checking", "goroutine schedules as engine choices (delay-bounded round-robin scheduler) over the real Future, All/Race/Any, evaluateAsyncExpr/ExecuteRoute and compiled OpAsync/OpAwait code with symbolic values; on every explored schedule a happens-before monitor checks all conflicting accesses, the result is compared with the schedule-independent expected value, and compiled async blocks are compared with the interpreter", "section 4 C09"),
  "C16": ("model_checking", "the real Hub.Run loop, RoomManager, Room and Connection code driven by operation histories (engine choices over configuration, operation, connection, room) against a membership model checked after every step, and by racing actors under delay-bounded schedule exploration with a happens-before monitor; crashes (send on closed channel), deadlocks (all goroutines blocked) and view disagreements are the violations", "section 4 C16"),
- "C08": ("model_checking", "two goroutines running the real ExecuteRoute on one long-lived interpreter (programs parsed from source, mock database attached) under delay-bounded schedule exploration: a happens-before monitor checks every pair of conflicting accesses on every explored schedule and each reply is compared with the reply the request gets alone", "section 4 C08"),
+ "C08": ("model_checking", "two goroutines running the real ExecuteRoute on one long-lived interpreter (programs parsed from source, mock database attached) under delay-bounded schedule exploration: a happens-before monitor checks every pair of conflicting accesses on every explored schedule and each reply is compared with the reply the request gets alone; the in-memory Redis provider's incr/decr; compiled handlers after a request that failed at run time", "section 4 C08"),
  "C01": ("model_checking", "the real interpreter (ExecuteRoute, EvaluateExpression, executor, builtins) and the real lexer/parser on symbolic-leaf expressions, operator token pairs and statement templates against reference results written from the language specification; for all operand values within the bounds z3 decides whether the interpreter's outcome can differ from the documented one; object iteration under every Go map order", "section 4 C01"),
- "C10": ("model_checking", "symbolic byte buffers through the real bytecode loader and VM (step limit, allocation bound and termination as implicit assertions) and symbolic source bytes through the real lexer and parser", "section 4 C10"),
+ "C10": ("model_checking", "symbolic byte buffers through the real bytecode loader and VM (step limit, allocation bound and termination as implicit assertions) symbolic source bytes through the real lexer and parser, symbolic bytes / one instruction at operand boundaries through the decompiler, and a compile -> decompile / load -> run round trip", "section 4 C10"),
 }
 NA_REASON = {}
 checks = []
